@@ -3,8 +3,10 @@ package props
 import (
 	"fmt"
 	"go/ast"
+	"go/token"
 	"go/types"
 	"sort"
+	"strings"
 
 	"j5verif/checker/core"
 )
@@ -193,4 +195,182 @@ func refClosure(r *core.Run) {
 	}
 	r.Analysed["reference_walk_clauses"] = n
 	r.Floor("R-FLOW/closure", 5, "object, oneof, enum, array and map clauses of walkRefs")
+}
+
+// methodSchemasIndependent (R-FLOW/closure, method clause): the schemas of a
+// method are those of its request body, its path parameters, its query
+// parameters and its response body. For a verb with a body the path
+// parameters are *removed* from the body, so the four are disjoint sources:
+// each is walked whatever the others hold. The rule finds the function of
+// collectPackageRefs that takes a *Method and requires, per schema-bearing
+// field, a walk (range operand or call argument) whose enclosing conditions
+// mention no other of these fields.
+func methodSchemasIndependent(r *core.Run) {
+	fd, pk := r.P.FuncDecl("internal/j5client", "collectPackageRefs")
+	if fd == nil {
+		r.Fatal("anchor: j5client.collectPackageRefs not found")
+		return
+	}
+	info := pk.TypesInfo
+	// schema-bearing fields of Request and Method
+	bearing := map[types.Object]string{}
+	for _, tn := range []string{"Request", "Method"} {
+		named := r.P.LookupType(core.Module+"/internal/j5client", tn)
+		if named == nil {
+			r.Fatal("anchor: j5client.%s not found", tn)
+			return
+		}
+		st, _ := named.Underlying().(*types.Struct)
+		for i := 0; st != nil && i < st.NumFields(); i++ {
+			f := st.Field(i)
+			ts := core.TypeStr(f.Type())
+			if strings.HasSuffix(ts, "j5schema.ObjectSchema") || strings.HasSuffix(ts, "j5schema.ObjectProperty") {
+				bearing[f] = tn + "." + f.Name()
+			}
+		}
+	}
+	if len(bearing) < 4 {
+		r.Fatal("R-FLOW/closure: expected Request.Body/PathParameters/QueryParameters and Method.ResponseBody, found %d schema-bearing fields", len(bearing))
+		return
+	}
+	// the walker: function literal (or the declaration itself) with a *Method parameter
+	var body *ast.BlockStmt
+	for _, d := range core.TreeDecls(pk, fd, 2) {
+		ast.Inspect(d, func(n ast.Node) bool {
+			var ft *ast.FuncType
+			var b *ast.BlockStmt
+			switch x := n.(type) {
+			case *ast.FuncLit:
+				ft, b = x.Type, x.Body
+			case *ast.FuncDecl:
+				ft, b = x.Type, x.Body
+			default:
+				return true
+			}
+			if body != nil || ft.Params == nil || b == nil {
+				return true
+			}
+			for _, p := range ft.Params.List {
+				if strings.HasSuffix(core.TypeStr(info.TypeOf(p.Type)), "j5client.Method") {
+					body = b
+				}
+			}
+			return true
+		})
+	}
+	if body == nil {
+		r.Fatal("R-FLOW/closure: no function taking a *Method in collectPackageRefs")
+		return
+	}
+	fieldOf := func(e ast.Expr) string {
+		if s, ok := core.Unparen(e).(*ast.SelectorExpr); ok {
+			if name, ok := bearing[info.ObjectOf(s.Sel)]; ok {
+				return name
+			}
+		}
+		return ""
+	}
+	// locals that only name one of the fields
+	alias := map[types.Object]string{}
+	ast.Inspect(body, func(n ast.Node) bool {
+		if as, ok := n.(*ast.AssignStmt); ok && as.Tok == token.DEFINE && len(as.Lhs) == len(as.Rhs) {
+			for i, l := range as.Lhs {
+				if id, ok := l.(*ast.Ident); ok {
+					if f := fieldOf(as.Rhs[i]); f != "" {
+						alias[info.ObjectOf(id)] = f
+					}
+				}
+			}
+		}
+		return true
+	})
+	nameOf := func(e ast.Expr) string {
+		if f := fieldOf(e); f != "" {
+			return f
+		}
+		if id, ok := core.Unparen(e).(*ast.Ident); ok {
+			return alias[info.ObjectOf(id)]
+		}
+		return ""
+	}
+	mentioned := func(e ast.Expr) map[string]bool {
+		out := map[string]bool{}
+		ast.Inspect(e, func(n ast.Node) bool {
+			if x, ok := n.(ast.Expr); ok {
+				if f := nameOf(x); f != "" {
+					out[f] = true
+				}
+			}
+			return true
+		})
+		return out
+	}
+	type use struct {
+		pos   token.Pos
+		other string
+	}
+	uses := map[string][]use{}
+	var stack []ast.Node
+	ast.Inspect(body, func(n ast.Node) bool {
+		if n == nil {
+			stack = stack[:len(stack)-1]
+			return true
+		}
+		stack = append(stack, n)
+		var operands []ast.Expr
+		switch x := n.(type) {
+		case *ast.RangeStmt:
+			operands = append(operands, x.X)
+		case *ast.CallExpr:
+			operands = append(operands, x.Args...)
+		}
+		for _, op := range operands {
+			f := nameOf(op)
+			if f == "" {
+				continue
+			}
+			other := ""
+			for _, anc := range stack[:len(stack)-1] {
+				is, ok := anc.(*ast.IfStmt)
+				if !ok {
+					continue
+				}
+				for m := range mentioned(is.Cond) {
+					if m != f {
+						other = m
+					}
+				}
+			}
+			uses[f] = append(uses[f], use{op.Pos(), other})
+		}
+		return true
+	})
+	var names []string
+	for _, nm := range bearing {
+		names = append(names, nm)
+	}
+	sort.Strings(names)
+	for _, nm := range names {
+		o := r.Add("R-FLOW/closure", "j5client.collectPackageRefs | method walk of "+nm, body.Pos(), "schemas of a method: "+nm)
+		us := uses[nm]
+		free := false
+		other := ""
+		for _, u := range us {
+			if u.other == "" {
+				free = true
+				o.Pos = r.P.Rel(u.pos)
+			} else {
+				other = u.other
+				o.Pos = r.P.Rel(u.pos)
+			}
+		}
+		switch {
+		case len(us) == 0:
+			o.Fail("%s is never walked: a schema referenced only from there is missing from the client API", nm)
+		case !free:
+			o.Fail("%s is walked only under a condition on %s: for a verb with a body the path parameters are taken out of the body, so a schema referenced only from a path parameter of such a method is missing from the client API (a dangling $ref in the OpenAPI document)", nm, other)
+		default:
+			o.Auto("walked whatever the other request parts hold")
+		}
+	}
 }
